@@ -13,7 +13,8 @@ package absnfs
 //@ prop C24
 //@ requires t != nil
 //@ modifies t.TransferSize, t.AttrCacheTimeout, t.AttrCacheSize, t.NegativeCacheTimeout, t.DirCacheTimeout, t.DirCacheMaxEntries, t.DirCacheMaxDirSize, t.MaxConnections, t.IdleTimeout, t.SendBufferSize, t.ReceiveBufferSize, t.MaxWorkers, t.Timeouts, fields(TimeoutConfig)
-//@ ensures [TransferSize] t.TransferSize == dflt(old(t.TransferSize), 65536)
+// (C23: the transfer size READ/WRITE serve and FSINFO advertises is the one given, never rounded or zeroed)
+//@ ensures [TransferSize] {C24, C23} t.TransferSize == dflt(old(t.TransferSize), 65536)
 //@ ensures [AttrCacheTimeout] t.AttrCacheTimeout == dflt(old(t.AttrCacheTimeout), 5000000000)
 //@ ensures [AttrCacheSize] t.AttrCacheSize == dflt(old(t.AttrCacheSize), 10000)
 //@ ensures [NegativeCacheTimeout] t.NegativeCacheTimeout == dflt(old(t.NegativeCacheTimeout), 5000000000)
